@@ -1135,6 +1135,234 @@ func runProxyWatch(s *sut, w *lib.Writer, idx int) {
 	}
 }
 
+// ---------- a watch resumed a long way behind ----------
+
+// runBacklog: one create and n-1 guarded updates of one key, then a prefix watch from the create's revision: the
+// backlog (more than resultChanLength*eventBatchSize events, not a multiple of 100) comes from the event cache.
+func runBacklog(s *sut, w *lib.Writer, idx int) {
+	ns := []byte(fmt.Sprintf("/h%05d/", idx))
+	const n = 100*backend.VerifEventBatchSize + 51
+	kA := K(ns, "a")
+	ctx := context.Background()
+	failed := ""
+	type wr struct {
+		rev int64
+		val string
+	}
+	var writes []wr
+	var rev int64
+	for i := 0; i < n && failed == ""; i++ {
+		v := fmt.Sprintf("v%d", i)
+		var t Txn
+		if i == 0 {
+			t = shapeCreate(kA, []byte(v))
+		} else {
+			t = shapeUpdate(kA, []byte(v), rev)
+		}
+		resp, err := s.srv.Txn(ctx, t.pb())
+		if err != nil || resp == nil || !resp.Succeeded {
+			failed = fmt.Sprintf("write %d failed: %v", i, err)
+			break
+		}
+		rev = resp.Header.Revision
+		writes = append(writes, wr{rev, v})
+	}
+	if !lib.WaitUntil(10*time.Second, func() bool { return int64(s.be.GetCurrentRevision()) >= rev }) && failed == "" {
+		failed = "the writes were not committed"
+	}
+	s.settle()
+	mw := newMemWatch()
+	wdone := make(chan error, 1)
+	go func() { wdone <- s.srv.Watch(mw) }()
+	start := int64(0)
+	if len(writes) > 0 {
+		start = writes[0].rev
+	}
+	mw.in <- &etcdserverpb.WatchRequest{RequestUnion: &etcdserverpb.WatchRequest_CreateRequest{CreateRequest: &etcdserverpb.WatchCreateRequest{Key: ns, RangeEnd: prefixEnd(ns), StartRevision: start}}}
+	count := func() int {
+		c := 0
+		for _, b := range mw.snapshot() {
+			if !b.Created && !b.Canceled {
+				c += len(b.Events)
+			}
+		}
+		return c
+	}
+	// progress-based wait: give up when nothing has arrived for 3 s
+	last, lastT := -1, time.Now()
+	for {
+		c := count()
+		if c >= len(writes) {
+			break
+		}
+		if c != last {
+			last, lastT = c, time.Now()
+		} else if time.Since(lastT) > 3*time.Second {
+			break
+		}
+		time.Sleep(5 * time.Millisecond)
+	}
+	delivered := 0
+	ordered := true
+	firstBad := ""
+	for _, b := range mw.snapshot() {
+		if b.Created || b.Canceled {
+			continue
+		}
+		for _, e := range b.Events {
+			if delivered < len(writes) {
+				x := writes[delivered]
+				if e.Type != mvccpb.PUT || !bytes.Equal(e.Kv.Key, kA) || string(e.Kv.Value) != x.val || e.Kv.ModRevision != x.rev {
+					if ordered {
+						firstBad = fmt.Sprintf("event %d: %v %s=%s@%d, expected PUT %s=%s@%d", delivered, e.Type, e.Kv.Key, e.Kv.Value, e.Kv.ModRevision, kA, x.val, x.rev)
+					}
+					ordered = false
+				}
+			} else {
+				ordered = false
+			}
+			delivered++
+		}
+	}
+	mw.cancel()
+	select {
+	case <-wdone:
+	case <-time.After(2 * time.Second):
+		// a watch stuck inside the backend keeps its goroutine; the stream itself is gone
+	}
+	cs := lib.Case{Kind: "corpus-backlog-catch-up", Coq: lib.App("C16Backlog", lib.N(uint64(len(writes))), lib.N(uint64(delivered)), lib.Bool(ordered)),
+		JSON: map[string]interface{}{"ns": string(ns), "writes": len(writes), "delivered": delivered, "ordered": ordered, "first_divergence": firstBad,
+			"scenario": "prefix watch resumed from the first of 30051 writes of one key (backlog from the event cache)"}, Outcomes: []string{"backlog"}}
+	w.Add(cs)
+	if failed != "" {
+		w.Fail(lib.ImplFailure{CaseID: w.Len() - 1, What: failed, Case: cs.JSON})
+	}
+}
+
+// ---------- racing guarded writes over the Badger engine ----------
+
+type raceBarrier struct {
+	mu      sync.Mutex
+	want    int
+	arrived int
+	ch      chan struct{}
+	seen    map[int64]bool
+}
+
+func (b *raceBarrier) arm(n int) {
+	b.mu.Lock()
+	b.want, b.arrived, b.ch, b.seen = n, 0, make(chan struct{}), map[int64]bool{}
+	b.mu.Unlock()
+}
+
+// before aligns the first engine batch of every racing client: they all begin their batch together
+func (b *raceBarrier) before(kind string, key []byte) error {
+	if kind != "batch" {
+		return nil
+	}
+	id := lib.GoID()
+	b.mu.Lock()
+	if b.ch == nil || b.seen[id] || b.want == 0 {
+		b.mu.Unlock()
+		return nil
+	}
+	b.seen[id] = true
+	b.arrived++
+	ch := b.ch
+	if b.arrived >= b.want {
+		close(ch)
+		b.want = 0
+	}
+	b.mu.Unlock()
+	select {
+	case <-ch:
+	case <-time.After(5 * time.Millisecond):
+	}
+	return nil
+}
+
+func runRace(w *lib.Writer, args lib.Args) {
+	rounds := map[string]int{"quick": 150, "thorough": 2000, "search": 600}[args.Tier]
+	if rounds == 0 {
+		rounds = 150
+	}
+	const clients = 8
+	kv0, closeKv, err := lib.NewEngine(lib.EngBadger, args.Scratch)
+	if err != nil {
+		w.Fail(lib.ImplFailure{CaseID: -1, What: "cannot open the Badger engine: " + err.Error()})
+		return
+	}
+	defer closeKv()
+	bar := &raceBarrier{}
+	kv := &lib.Wrap{KvStorage: kv0, Before: bar.before}
+	be := backend.NewBackend(kv, backend.Config{Prefix: "/registry", Identity: "c16-race", EnableEtcdCompatibility: true}, &lib.NopMetrics{})
+	ts, _ := kv0.GetTimestampOracle(context.Background())
+	be.SetCurrentRevision(ts + 1000)
+	p := &peers{Stub: &leader.Stub{ElectionInfo: leader.ElectionInfo{LeaderAddress: "127.0.0.1:0", IsLeader: true}}, EtcdProxy: etcdproxy.NewDisabledEtcdProxy()}
+	srv := etcd.New(be, &lib.NopMetrics{}, p)
+	race := func(mk func(i int) Txn) (int, []string) {
+		bar.arm(clients)
+		var wg sync.WaitGroup
+		var mu sync.Mutex
+		succ := 0
+		var answers []string
+		for i := 0; i < clients; i++ {
+			wg.Add(1)
+			go func(i int) {
+				defer wg.Done()
+				ctx, cancel := context.WithTimeout(context.Background(), 5*time.Second)
+				defer cancel()
+				resp, err := srv.Txn(ctx, mk(i).pb())
+				mu.Lock()
+				defer mu.Unlock()
+				switch {
+				case err != nil:
+					answers = append(answers, "error")
+				case resp.Succeeded:
+					succ++
+					answers = append(answers, fmt.Sprintf("succeeded@%d", resp.Header.Revision))
+				default:
+					answers = append(answers, "failed")
+				}
+			}(i)
+		}
+		wg.Wait()
+		return succ, answers
+	}
+	maxC, maxU := 0, 0
+	var detail interface{}
+	done := 0
+	for r := 0; r < rounds; r++ {
+		k := []byte(fmt.Sprintf("/registry/race/k%05d", r))
+		c, ca := race(func(i int) Txn { return shapeCreate(k, []byte(fmt.Sprintf("c%d", i))) })
+		if c > maxC {
+			maxC = c
+		}
+		ctx, cancel := context.WithTimeout(context.Background(), 5*time.Second)
+		lib.WaitUntil(time.Second, func() bool { g, e := srv.Range(ctx, &etcdserverpb.RangeRequest{Key: k}); return e == nil && len(g.Kvs) == 1 })
+		g, gerr := srv.Range(ctx, &etcdserverpb.RangeRequest{Key: k})
+		cancel()
+		u := 0
+		var ua []string
+		if gerr == nil && len(g.Kvs) == 1 {
+			rev := g.Kvs[0].ModRevision
+			u, ua = race(func(i int) Txn { return shapeUpdate(k, []byte(fmt.Sprintf("u%d", i)), rev) })
+			if u > maxU {
+				maxU = u
+			}
+		}
+		done++
+		if c > 1 || u > 1 {
+			detail = map[string]interface{}{"round": r, "key": string(k), "create_answers": ca, "update_answers": ua}
+			break
+		}
+	}
+	cs := lib.Case{Kind: "badger-race", Coq: lib.App("C16Race", lib.N(clients), lib.N(uint64(done)), lib.N(uint64(maxC)), lib.N(uint64(maxU))),
+		JSON: map[string]interface{}{"engine": "badger", "clients": clients, "rounds": done, "max_succeeded_creates_in_a_round": maxC, "max_succeeded_updates_in_a_round": maxU, "first_violation": detail},
+		Outcomes: []string{"race"}}
+	w.Add(cs)
+}
+
 // ---------- scenarios with an unresolved lower revision ----------
 
 func listingCoq(s *sut, ns []byte) string {
@@ -1341,6 +1569,9 @@ func main() {
 	idx++
 	runProxyWatch(s, w, idx)
 	idx++
+	runBacklog(s, w, idx)
+	idx++
+	runRace(w, args)
 	for i := 0; i < nSup; i++ {
 		runHistory(s, w, idx, rnd.Fork(), plan{kind: "supported-history", nOps: 4 + rnd.Intn(9), watch: true, watchRev: i%3 == 0})
 		idx++
